@@ -671,6 +671,16 @@ def mutate_names(rng, case, name):
     out = []
     toks = case["toks"]
     fixed_only = all(t[0] in "LTE" or (t[0] == "U" and fixed_width(case["env"].get(t[1], ["P"]))) for t in toks)
+    if fixed_only:
+        # only a well-formed name (every field at its nominal width, e.g. no 3-digit year) has a known length
+        def _w(t):
+            if t[0] == "L":
+                return len(t[1])
+            if t[0] in "TE":
+                return WIDTH[t[1]]
+            r = case["env"].get(t[1], ["P"])
+            return r[1] if r[0] == "D" else r[2] if r[0] == "C" else len(r[1][0])
+        fixed_only = sum(_w(t) for t in toks) == len(name)
     out.append(("x" + name[1:], True))
     if toks[-1][0] == "L":
         c = name[-1]
